@@ -6,6 +6,7 @@ package fs
 import (
 	"os"
 	"fmt"
+	"strconv"
 	"syscall"
 )
 
@@ -54,7 +55,7 @@ func Mount(source, target, fstype, options string) error {
 		case "remount":
 			flags = syscall.MS_REMOUNT
 		}
-		if err := verifPoint("mount", source, target); err != nil {
+		if err := verifPoint("mount", source, target, fstype, strconv.FormatUint(uint64(flags), 10), options); err != nil {
 			return err
 		}
 		err := SyscallMount(source, target, fstype, flags, options)
@@ -65,7 +66,7 @@ func Mount(source, target, fstype, options string) error {
 		// Vinculae daemonis systematis frangere!
 		if source == "/dev" || source == "/sys" || source == "/run" {
 			flags = syscall.MS_SLAVE | syscall.MS_REC
-			if err := verifPoint("mount", "", target); err != nil {
+			if err := verifPoint("mount", "", target, "", strconv.FormatUint(uint64(flags), 10), options); err != nil {
 				return err
 			}
 			err = SyscallMount("", target, "", flags, options)
@@ -84,7 +85,7 @@ func Unmount(mounted string, force bool) error {
 		if force {
 			flags |= syscall.MNT_FORCE
 		}
-		if err := verifPoint("umount", mounted, ""); err != nil {
+		if err := verifPoint("umount", mounted, strconv.Itoa(flags)); err != nil {
 			return err
 		}
 		err := SyscallUnmount(mounted, flags)
